@@ -557,4 +557,42 @@ theorem printAll_at_end {l h k m e c} (a : At l h k m c.length e c) (hk : Regula
     refine ⟨by rw [hstep.1, ih'.1], ?_⟩
     simpa [List.append_assoc] using ih'.2
 
+/-! ### append mode -/
+
+/-- append mode: wherever the position is, every item written lands at the end of the file -/
+theorem writeAll_append {l h k p e c} (a : At l h k .a p e c) (hk : Regular k) (cs : List (List Byte)) :
+    (writeAll refIO l (some h) cs).2 = writeSpec cs ∧
+      ∃ p', At (writeAll refIO l (some h) cs).1 h k .a p' e (c ++ cs.flatten) ∧
+        (cs.flatten ≠ [] → p' = (c ++ cs.flatten).length) := by
+  induction cs generalizing l p c with
+  | nil => exact ⟨rfl, p, by simpa [writeAll] using a, by simp⟩
+  | cons d cs ih =>
+    by_cases hd : d = []
+    · subst hd
+      obtain ⟨ho, _, ha⟩ := fileWrite_at_end a hk rfl (Or.inl rfl) []
+      simp only [List.length_nil, if_true, List.append_nil] at ha
+      obtain ⟨i1, p', i2, i3⟩ := ih ha
+      simp only [writeAll, writeSpec, List.map_cons]
+      rcases hrest : writeAll refIO (fileWrite refIO l (some h) []).lib (some h) cs with ⟨l', outs⟩
+      rw [hrest] at i1 i2
+      exact ⟨by rw [ho, i1]; rfl, p', by simpa using i2, by simpa using i3⟩
+    · obtain ⟨ho, _, ha⟩ := fileWrite_at_end a hk rfl (Or.inl rfl) d
+      have hlen : d.length ≠ 0 := by cases d <;> simp_all
+      simp only [hlen, if_false] at ha
+      have ha' : At (fileWrite refIO l (some h) d).lib h k .a (c ++ d).length e (c ++ d) := by
+        simpa [List.length_append] using ha
+      obtain ⟨j1, j2⟩ := writeAll_at_end ha' hk rfl rfl cs
+      simp only [writeAll, writeSpec, List.map_cons]
+      rcases hrest : writeAll refIO (fileWrite refIO l (some h) d).lib (some h) cs with ⟨l', outs⟩
+      rw [hrest] at j1 j2
+      refine ⟨by rw [ho, j1]; rfl, (c ++ d).length + cs.flatten.length, by simpa [List.append_assoc] using j2, ?_⟩
+      intro _; simp [List.length_append, Nat.add_assoc]
+
+/-- fopen "a" of a file that exists: a fresh handle, content untouched -/
+theorem fopen_a (l : Ref) (k : Nat) (hk : Regular k) (c : List Byte) (hf : lookup k l.files = some c) :
+    (Ref.fopen l k .a).2 = some l.next ∧ At (Ref.fopen l k .a).1 l.next k .a c.length false c := by
+  have h1 : k ≠ fileNoDir := hk.1
+  have h2 : k ≠ fileFull := hk.2
+  simp [Ref.fopen, h1, h2, At, hf]
+
 end Cello.File
